@@ -204,6 +204,7 @@ where
             }
             _ => {}
         }
+        let evals_at_end = evals;
         if !injected_fault && report.result == RunResult::Ok {
             if let Some(e) = evals {
                 if e as usize != report.calls {
@@ -220,11 +221,23 @@ where
             let min_call = problem.instr().calls.lock().unwrap().iter().map(|(_, v)| f64::from_bits(*v)).min_by(|a, b| a.total_cmp(b));
             let best = state.best_objective_value().map(|o| o.value());
             if let (Some(m), true) = (min_call, state.contains::<mahf::state::common::BestIndividual<P>>()) {
-                if best.map(|b| b.to_bits()) != Some(m.to_bits()) {
+                if best.map(super::observer::zbits) != Some(super::observer::zbits(m)) {
                     d.violate("C07", format!("run-end-best-vs-minimum template={tname}"), format!("{tname}: best objective value reported {best:?}, minimum the objective returned {m}"));
                 }
             }
             // C16
+            if let Term::Either { evals, iters } = case.term {
+                // the loop ran while either budget was left, and not one pass longer
+                let it = state.try_get_value::<Iterations>().ok().unwrap_or(0);
+                let e = evals_at_end.unwrap_or(0);
+                if it < iters || e < evals {
+                    d.violate("C16", format!("compound-termination-early template={tname}"), format!("{tname}: evaluations({evals}) | iterations({iters}) ended at {e} evaluations, {it} iterations"));
+                }
+                if it > iters && d.passes_main > 0 && (e as u64) >= evals as u64 + d.calls_in_last_pass.max(1) {
+                    d.violate("C16", format!("compound-termination-late template={tname}"), format!("{tname}: evaluations({evals}) | iterations({iters}) ended at {e} evaluations, {it} iterations; the last pass made {} calls", d.calls_in_last_pass));
+                }
+                d.probe("run terminated by a compound condition");
+            }
             if let Term::Iterations(n) = case.term {
                 let it = state.try_get_value::<Iterations>().ok();
                 if it != Some(n) {
